@@ -28,11 +28,23 @@ Modelling decisions (see props/C08.json):
   the alphabet of the trace theorems (`NoCreate`), see the known finding in Props.
 * Status conditions are abstract tokens; they matter only because a changed
   status bumps the resourceVersion.
+* Third parties also EDIT objects (`Act.edit`: a claim's delete policy or XR reference, an
+  XR's claim reference, a Usage's composite label or using resource): the in-flight
+  reconciles then hold stale copies and their writes are rejected by the resourceVersion
+  precondition.  The state-based constraint of a finalizer removal is therefore stated for
+  the moment the removal is APPLIED (stored resourceVersion = the request's).
+* Reads through an informer cache may LAG (`Act.lagStep`): the reply is computed from any
+  store the run has been in (`Sys.past`).  A cache that is older than the initial store
+  (an object "not yet in the cache") is the same thing as a creation step and is excluded
+  with it (`NoCreate`), see the witnesses in Props.
 -/
 namespace Xp.C08
 
 inductive Kind where
   | claim | xr | xrd | crd | rev | lock | usage | res
+  /-- `res2`: the same Kind as `res` in another API group; `res3`: another Kind of the same
+  group (objects of the three kinds may share a name) -/
+  | res2 | res3
   deriving DecidableEq, Repr, Inhabited
 
 structure Key where
@@ -70,6 +82,10 @@ structure Obj where
   inactive : Bool := false
   /-- package revision: `spec.skipDependencyResolution = true` -/
   skipDeps : Bool := false
+  /-- usage: (apiVersion, kind) of the using resource `spec.by` -/
+  refKind : Kind := .res
+  /-- usage: (apiVersion, kind) of the used resource `spec.of` -/
+  ofKind : Kind := .res
   deriving DecidableEq, Repr
 
 structure St where
@@ -137,7 +153,7 @@ def Obj.controlledBy (o : Obj) (uid : Nat) : Bool := o.owners.any (fun r => r.ct
 inductive Req where
   | get (k : Key)
   | list (kd : Kind)
-  | listUsagesOf (n : String)
+  | listUsagesOf (kd : Kind) (n : String)
   | setStatus (k : Key) (rv : Nat) (conds : List (String × String))
   | removeFin (k : Key) (rv : Nat) (fin : String)
   | delete (k : Key) (fg : Bool)
@@ -170,7 +186,7 @@ def withObj (s : St) (k : Key) (rv : Nat) (f : Obj → Obj) : St × Resp :=
 def exec (s : St) : Req → St × Resp
   | .get k => (s, match find s k with | some o => .obj o | none => .notFound)
   | .list kd => (s, .list (ofKind s kd))
-  | .listUsagesOf n => (s, .list ((ofKind s .usage).filter (fun u => u.of = n)))
+  | .listUsagesOf kd n => (s, .list ((ofKind s .usage).filter (fun u => u.of = n ∧ u.ofKind = kd)))
   | .setStatus k rv conds => withObj s k rv (fun o => { o with conds := conds })
   | .removeFin k rv fin => withObj s k rv (fun o => { o with fins := o.fins.filter (· ≠ fin) })
   | .delete k fg =>
@@ -184,8 +200,13 @@ def exec (s : St) : Req → St × Resp
   | .cacheDelete _ => (s, .ok)
 
 def Req.isWrite : Req → Bool
-  | .get _ | .list _ | .listUsagesOf _ | .stop _ | .cacheDelete _ => false
+  | .get _ | .list _ | .listUsagesOf _ _ | .stop _ | .cacheDelete _ => false
   | _ => true
+
+/-- reads: the calls an informer cache can answer -/
+def Req.isRead : Req → Bool
+  | .get _ | .list _ | .listUsagesOf _ _ => true
+  | _ => false
 
 /-- reply seen by the controller when the call was not applied -/
 def errResp (o : Outcome) (r : Req) : Resp :=
@@ -225,6 +246,30 @@ def envUnfin (s : St) (k : Key) (f : String) : St :=
   match find s k with
   | none => s
   | some o => (commit s o { o with fins := o.fins.filter (· ≠ f) }).1
+
+/-- kinds whose `ref` / `flag` a third party may edit (claim: `spec.resourceRef`,
+`spec.compositeDeletePolicy`; XR: `spec.claimRef`; Usage: `spec.by`, the composite label) -/
+def editable : Kind → Bool
+  | .claim | .xr | .usage => true
+  | _ => false
+
+inductive Edit where
+  | flip
+  | ref (v : String)
+  deriving DecidableEq, Repr
+
+def Edit.app (e : Edit) (o : Obj) : Obj :=
+  match e with
+  | .flip => { o with flag := !o.flag }
+  | .ref v => { o with ref := v }
+
+/-- a third party edits an object (a changed object gets a fresh resourceVersion) -/
+def envEdit (s : St) (k : Key) (e : Edit) : St :=
+  if editable k.kind then
+    match find s k with
+    | none => s
+    | some o => (commit s o (e.app o)).1
+  else s
 
 /-- the process dies: every dynamically started controller dies with it -/
 def crash (s : St) : St := { s with running := [] }
@@ -444,11 +489,11 @@ def usageFinalize (k : Key) (u : Obj) : P :=
   else .ret .ok
 
 def usageUsed (k : Key) (u : Obj) : P :=
-  .call (.get ⟨.res, u.of⟩) fun
-    | .obj used => .call (.listUsagesOf u.of) fun
+  .call (.get ⟨u.ofKind, u.of⟩) fun
+    | .obj used => .call (.listUsagesOf u.ofKind u.of) fun
         | .list l =>
           if l.length < 2 then
-            .call (.unlabel ⟨.res, u.of⟩ used.rv) fun
+            .call (.unlabel ⟨u.ofKind, u.of⟩ used.rv) fun
               | .obj _ => usageFinalize k u
               | .conflict => .ret .requeue
               | _ => .ret .err
@@ -464,7 +509,7 @@ def usageRec (n : String) : P :=
     | .obj u =>
       if !u.del then .ret .oos
       else if u.ref ≠ "" ∧ u.flag then
-        .call (.get ⟨.res, u.ref⟩) fun
+        .call (.get ⟨u.refKind, u.ref⟩) fun
           | .obj _ => .ret .requeue
           | .notFound => usageUsed k u
           | _ => .ret .err
@@ -497,6 +542,9 @@ structure Thread where
 structure Sys where
   st : St
   ths : List Thread
+  /-- every store the run has been in (oldest first): what a lagging informer cache may
+  still show -/
+  past : List St := []
 
 inductive Act where
   | spawn (c : Ctl) (n : String)
@@ -504,6 +552,12 @@ inductive Act where
   | del (k : Key)
   | gc
   | unfin (k : Key) (f : String)
+  /-- a third party edits an object (see `envEdit`) -/
+  | edit (k : Key) (e : Edit)
+  /-- reconcile `i` takes its next call; if it is a read it is answered from an informer
+  cache that shows the store as it was before schedule step `j` (`past[j]`); a write goes
+  to the API server (= `step i .ok`) -/
+  | lagStep (i : Nat) (j : Nat)
   /-- an object appears (a user, or a reconcile outside the modelled deletion branches,
   e.g. a live claim re-creating its XR). NOT part of the alphabet the trace theorems
   quantify over; present so that the need for that restriction can be stated. -/
@@ -512,7 +566,12 @@ inductive Act where
 
 def Thread.dead (t : Thread) : Thread := { t with prog := .ret .crashed }
 
-def Sys.act (s : Sys) : Act → Sys
+/-- reconcile `i` (thread `t`, about to issue `r`) sees reply `x`; the store becomes `st` -/
+def Sys.reply (s : Sys) (i : Nat) (t : Thread) (r : Req) (k : Resp → P) (st : St) (x : Resp) : Sys :=
+  { s with st := st, ths := s.ths.set i { t with hist := t.hist ++ [(r, x)], prog := k x } }
+
+/-- one schedule step (without the book-keeping of `past`) -/
+def Sys.act1 (s : Sys) : Act → Sys
   | .spawn c n => { s with ths := s.ths ++ [⟨c, n, [], program c n⟩] }
   | .step i o =>
     match s.ths[i]? with
@@ -522,17 +581,32 @@ def Sys.act (s : Sys) : Act → Sys
       | .ret _ => s
       | .call r k =>
         match o with
-        | .ok =>
-          let x := exec s.st r
-          { st := x.1, ths := s.ths.set i { t with hist := t.hist ++ [(r, x.2)], prog := k x.2 } }
-        | .fail => { s with ths := s.ths.set i { t with hist := t.hist ++ [(r, errResp .fail r)], prog := k (errResp .fail r) } }
-        | .conflict => { s with ths := s.ths.set i { t with hist := t.hist ++ [(r, errResp .conflict r)], prog := k (errResp .conflict r) } }
-        | .crashBefore => { st := crash s.st, ths := s.ths.map Thread.dead }
-        | .crashAfter => { st := crash (exec s.st r).1, ths := s.ths.map Thread.dead }
+        | .ok => s.reply i t r k (exec s.st r).1 (exec s.st r).2
+        | .fail => s.reply i t r k s.st (errResp .fail r)
+        | .conflict => s.reply i t r k s.st (errResp .conflict r)
+        | .crashBefore => { s with st := crash s.st, ths := s.ths.map Thread.dead }
+        | .crashAfter => { s with st := crash (exec s.st r).1, ths := s.ths.map Thread.dead }
+  | .lagStep i j =>
+    match s.ths[i]? with
+    | none => s
+    | some t =>
+      match t.prog with
+      | .ret _ => s
+      | .call r k =>
+        if r.isRead then
+          match s.past[j]? with
+          | some p => s.reply i t r k s.st (exec p r).2
+          | none => s.reply i t r k s.st (exec s.st r).2
+        else s.reply i t r k (exec s.st r).1 (exec s.st r).2
   | .del k => { s with st := deleteKey s.st k false }
   | .gc => { s with st := gcStep s.st }
   | .unfin k f => { s with st := envUnfin s.st k f }
+  | .edit k e => { s with st := envEdit s.st k e }
   | .create o => if (find s.st o.key).isSome then s else { s with st := { s.st with objs := s.st.objs ++ [o] } }
+
+/-- one schedule step; the store it started from joins `past` (so that `past[j]` is the
+store just before schedule step `j`) -/
+def Sys.act (s : Sys) (a : Act) : Sys := { s.act1 a with past := s.past ++ [s.st] }
 
 def Act.isCreate : Act → Bool
   | .create _ => true
@@ -543,12 +617,16 @@ def Sys.run (s : Sys) : List Act → Sys
   | a :: rest => (s.act a).run rest
 
 /-- the configuration reached from store `st0` with no reconcile in flight -/
-def reach (st0 : St) (acts : List Act) : Sys := Sys.run ⟨st0, []⟩ acts
+def reach (st0 : St) (acts : List Act) : Sys := Sys.run { st := st0, ths := [] } acts
 
 /-- the schedule contains no creation step: it is made of reconciles of the six modelled
-deletion branches (each call with any fault outcome), user deletions, garbage collection
-steps, finalizer removals and crashes -/
+deletion branches (each call with any fault outcome, each read fresh or from a lagging
+cache), user deletions, third-party edits, garbage collection steps, finalizer removals
+and crashes -/
 def NoCreate (acts : List Act) : Prop := ∀ a ∈ acts, a.isCreate = false
+
+/-- every stored resourceVersion was issued before the next one -/
+def WF (s : St) : Prop := ∀ o ∈ s.objs, o.rv < s.nextRv
 
 /-! ### the property as a predicate on (state, controller, request about to be applied) -/
 
@@ -570,16 +648,19 @@ def claimXRGone (s : St) (cm : Obj) : Bool :=
   | some x => x.del && !cm.flag
 
 /-- `safeReq s c n r`: request `r`, about to be applied to state `s` by a reconcile of
-controller `c` for key `n`, respects the teardown order. -/
+controller `c` for key `n`, respects the teardown order.  A finalizer removal of a claim
+or Usage carries the resourceVersion `rv` it was computed from: if the stored object has
+another one (a third party edited it meanwhile) the API server rejects the write and
+nothing is applied. -/
 def safeReq (s : St) (c : Ctl) (n : String) : Req → Bool
-  | .removeFin k _ fin =>
+  | .removeFin k rv fin =>
     match c with
-    | .claim => fin != c08ClaimFinalizer || (match find s k with | none => true | some cm => claimXRGone s cm)
+    | .claim => fin != c08ClaimFinalizer || (match find s k with | none => true | some cm => cm.rv != rv || claimXRGone s cm)
     | .defined => fin != c08DefinedFinalizer || (match find s k with | none => true | some d => crdNotOurs s d.ref d.uid)
     | .offered => fin != c08OfferedFinalizer || (match find s k with | none => true | some d => crdNotOurs s d.of d.uid)
     | .rev => fin != c08RevisionFinalizer || (match find s lockKey with | none => true | some l => !l.pkgs.contains k.name)
     | .usage => fin != c08UsageFinalizer ||
-        (match find s k with | none => true | some u => !(u.flag && u.ref != "") || !present s ⟨.res, u.ref⟩)
+        (match find s k with | none => true | some u => u.rv != rv || !(u.flag && u.ref != "") || !present s ⟨u.refKind, u.ref⟩)
     | .xr => true
   | .delete k _ =>
     match c with
@@ -641,14 +722,14 @@ def NotInLockSeen (h : Hist) (n : String) : Prop :=
 /-- `guardH c n h r`: what a reconcile of controller `c` for key `n` must have seen (`h`)
 when it issues request `r`. -/
 def guardH (c : Ctl) (n : String) (h : Hist) : Req → Prop
-  | .removeFin k _ fin =>
+  | .removeFin k rv fin =>
     match c with
-    | .claim => fin = c08ClaimFinalizer → k = ⟨.claim, n⟩ ∧ ∃ cm, (Req.get ⟨.claim, n⟩, Resp.obj cm) ∈ h ∧ XRGoneSeen h cm
+    | .claim => fin = c08ClaimFinalizer → k = ⟨.claim, n⟩ ∧ ∃ cm, (Req.get ⟨.claim, n⟩, Resp.obj cm) ∈ h ∧ rv = cm.rv ∧ XRGoneSeen h cm
     | .defined => fin = c08DefinedFinalizer → k = ⟨.xrd, n⟩ ∧ ∃ d, (Req.get ⟨.xrd, n⟩, Resp.obj d) ∈ h ∧ CRDNotOursSeen h d.ref d.uid
     | .offered => fin = c08OfferedFinalizer → k = ⟨.xrd, n⟩ ∧ ∃ d, (Req.get ⟨.xrd, n⟩, Resp.obj d) ∈ h ∧ CRDNotOursSeen h d.of d.uid
     | .rev => fin = c08RevisionFinalizer → k = ⟨.rev, n⟩ ∧ NotInLockSeen h n
-    | .usage => fin = c08UsageFinalizer → k = ⟨.usage, n⟩ ∧ ∃ u, (Req.get ⟨.usage, n⟩, Resp.obj u) ∈ h ∧
-        (u.ref = "" ∨ u.flag = false ∨ (Req.get ⟨.res, u.ref⟩, Resp.notFound) ∈ h)
+    | .usage => fin = c08UsageFinalizer → k = ⟨.usage, n⟩ ∧ ∃ u, (Req.get ⟨.usage, n⟩, Resp.obj u) ∈ h ∧ rv = u.rv ∧
+        (u.ref = "" ∨ u.flag = false ∨ (Req.get ⟨u.refKind, u.ref⟩, Resp.notFound) ∈ h)
     | .xr => True
   | .delete k _ =>
     match c with
